@@ -25,7 +25,7 @@ ASSUMPTIONS = ['max_fragment_size >= distance between a read and its DS site (th
                'get_binned_counts applies its documented default filter (read 1, not duplicate, not qc-fail, DS present) without MAPQ / mp']
 MIN_NONTRIVIAL = {'quick': 150, 'thorough': 8000}
 REQUIRED_MONITORS = ['multibam:count_runs', 'pipeline:count_runs', 'ret:obtain_counts', 'ret:get_binned_counts', 'oracle:matrix_cells_compared', 'splits:compared', 'lib:non_proper_pairs',
-                     'lib:sites_on_job_boundary', 'lib:reads_with_site_0', 'history:shared_options_dict_rounds', 'genomic_bins:count_runs']
+                     'lib:sites_on_job_boundary', 'lib:reads_with_site_0', 'history:shared_options_dict_rounds', 'genomic_bins:count_runs', 'lib:read_name_shared_by_several_records']
 SHARD_TIMEOUT = {'quick': 900, 'thorough': 5400}
 
 
@@ -260,6 +260,7 @@ def run_case(case):
     nonproper = 0
     on_boundary = 0
     sites_list = []
+    last_single = [None]
     for tid, (name, ln) in enumerate(contigs):
         plan = []
         rl = 30
@@ -313,6 +314,13 @@ def run_case(case):
             if da:
                 tags['DA'] = da
             qn = f'q{rid}'
+            if kind == 'single':
+                # a read name that occurs on several single-end records (merged libraries with colliding names, split alignments): every record is
+                # its own record (names of paired templates stay unique - mates are found by name)
+                if last_single[0] is not None and r.random() < 0.4:
+                    qn = last_single[0]
+                    acc.count('lib:read_name_shared_by_several_records')
+                last_single[0] = qn
             base_flag = (1024 if dup else 0) | (512 if qcf else 0)
             if kind == 'single':
                 flags = [(64 | base_flag, pos)]
